@@ -19,7 +19,10 @@ import (
 	"verif/h/world"
 )
 
-var c02Behaviours = []string{"good", "revoked", "unknown", "http500", "refused", "html", "ldap", "https-good", "forged-good", "good-for-other-serial", "revoked-large"}
+var c02Behaviours = []string{"good", "revoked", "unknown", "http500", "refused", "html", "ldap", "https-good", "forged-good", "good-for-other-serial", "revoked-large",
+	// an authentic "revoked" whose revocationTime lies 10 minutes ahead of the validator's clock (responder clock ahead,
+	// post-dated revocation); a responder URL whose scheme is written in capitals (legal; the http client follows it)
+	"revoked-post-dated", "revoked-scheme-in-capitals"}
 
 type c02Case struct {
 	List     []int // behaviour index per responder position
@@ -45,8 +48,19 @@ func c02URL(i int, b int) string {
 		return fmt.Sprintf("ldap://dir.test/ocsp%d", i)
 	case "https-good":
 		return fmt.Sprintf("https://ocsp.test/s%d", i)
+	case "revoked-scheme-in-capitals":
+		return fmt.Sprintf("HTTP://ocsp.test/s%d", i)
 	}
 	return fmt.Sprintf("http://ocsp.test/s%d", i)
+}
+
+// c02Route: the URL as the origin sees it (the http client lower-cases the scheme)
+func c02Route(i int, b int) string {
+	u := c02URL(i, b)
+	if strings.HasPrefix(u, "HTTP://") {
+		return "http://" + u[7:]
+	}
+	return u
 }
 
 // c02Ref is the boring reference: the first authentic answer in list order
@@ -64,7 +78,7 @@ func c02Ref(c c02Case) (verdict string, answered bool) {
 		switch c02Behaviours[b] {
 		case "good", "https-good":
 			return "OK", true
-		case "revoked", "revoked-large":
+		case "revoked", "revoked-large", "revoked-post-dated", "revoked-scheme-in-capitals":
 			return "REVOKED", true
 		case "unknown":
 			return "ANY", true
@@ -156,14 +170,22 @@ func (k *c02Cast) run(c c02Case) (v0, v1, v2 Verdict, hits1, hits2 int) {
 				return 200, body, nil
 			}}
 		}
+		// prelude: the same checker first sees a client of the re-keyed CA (same name as the issuer, other key) and gets
+		// an authentic answer for it: whatever it learnt about "the issuer of that name" does not apply to this certificate
+		const sibURL = "http://ocsp.test/rekeyed"
+		sl := world.Issue(k.p.Sibling, world.CertOpt{CN: "c02 client of the re-keyed CA", Serial: big.NewInt(7770), KeyKind: "ec", KeyIdx: 5, OCSP: []string{sibURL}})
+		w.Net.Serve(sibURL, "rekeyed-good", world.BuildOCSP(world.OCSPAnswer{Status: xocsp.Good, Serial: sl.Cert.SerialNumber, Issuer: k.p.Sibling, Signer: k.p.Sibling, ThisUpdate: vsched.Epoch.Add(-time.Minute)}))
+		if v := w.Lookup(sl, world.Chain(sl, k.p.Sibling, k.p.Root)); v.String() != "OK" {
+			panic("c02 prelude: " + v.String() + " " + v.Err)
+		}
 		// event 0: the certificate is presented while every responder is down (nothing of this may be remembered)
 		for i, b := range c.List {
-			w.Net.Down(c02URL(i, b))
+			w.Net.Down(c02Route(i, b))
 		}
 		v0 = w.Lookup(leaf, chain)
 		w.Net.ResetHits()
 		for i, b := range c.List {
-			url := c02URL(i, b)
+			url := c02Route(i, b)
 			ans := world.OCSPAnswer{Serial: leaf.Cert.SerialNumber, Issuer: ca, Signer: ca, ThisUpdate: vsched.Epoch.Add(-time.Minute)}
 			if c.NextUpd {
 				ans.NextUpdate = vsched.Epoch.Add(time.Hour)
@@ -172,9 +194,12 @@ func (k *c02Cast) run(c c02Case) (v0, v1, v2 Verdict, hits1, hits2 int) {
 			case "good", "https-good":
 				ans.Status = xocsp.Good
 				serve(url, "good", world.BuildOCSP(ans))
-			case "revoked":
+			case "revoked", "revoked-scheme-in-capitals":
 				ans.Status = xocsp.Revoked
 				serve(url, "revoked", world.BuildOCSP(ans))
+			case "revoked-post-dated":
+				ans.Status, ans.RevokedAt = xocsp.Revoked, vsched.Epoch.Add(10*time.Minute)
+				serve(url, "revoked-post-dated", world.BuildOCSP(ans))
 			case "unknown":
 				ans.Status = xocsp.Unknown
 				serve(url, "unknown", world.BuildOCSP(ans))
@@ -206,7 +231,7 @@ func (k *c02Cast) run(c c02Case) (v0, v1, v2 Verdict, hits1, hits2 int) {
 		v1 = w.Lookup(leaf, chain)
 		hits1 = len(w.Net.Hits)
 		for i, b := range c.List {
-			w.Net.Down(c02URL(i, b))
+			w.Net.Down(c02Route(i, b))
 		}
 		w.Net.ResetHits()
 		v2 = w.Lookup(leaf, chain)
@@ -377,7 +402,7 @@ func RunC02(tier string, args []string) int {
 	cov := fw.Coverage{
 		"evaluations":         evals,
 		"distinct_nontrivial": nontrivial,
-		"rule":                "all responder lists of length 0..3 (quick, 1464 lists) / 0..4 (thorough, 16105 lists) over 11 behaviours x aia_strict(2) x default cache duration {0,10m} x nextUpdate {absent,+1h} (thorough) x chain shape (4 quick / 6 thorough, incl. a chain which does not contain the issuer and two chains whose CA certificates share a name); each case is a history on a fresh checker: all responders down, lookup; responders as listed, lookup; all down, lookup. Non-trivial = at least one responder named.",
+		"rule":                "all responder lists of length 0..3 (quick, 2380 lists) / 0..4 (thorough, 30941 lists) over 13 behaviours; every case starts with the lookup of a client of the re-keyed CA on the same checker; x aia_strict(2) x default cache duration {0,10m} x nextUpdate {absent,+1h} (thorough) x chain shape (4 quick / 6 thorough, incl. a chain which does not contain the issuer and two chains whose CA certificates share a name); each case is a history on a fresh checker: all responders down, lookup; responders as listed, lookup; all down, lookup. Non-trivial = at least one responder named.",
 		"samples":             samples,
 		"outcome_classes":     outcomes.Counts(),
 		"exhaustive":          true,
